@@ -372,6 +372,49 @@ def h_prog(ctx, pname, D, P, route='replay'):
         ctx.eq(plain(fy.x.data), Y, 'forward value of the output after two sweeps')
 
 
+def h_aliased_dependents(ctx, which, D, P):
+    """two dependents that share memory (z and a view of z, or z twice): the sweep returns
+    zbar^T dz/dx + wbar^T dw/dx, i.e. both seeds count"""
+    from .. import lib
+    algopy = symx.load_algopy()
+    X = np.empty((D, P, 3), dtype=object)
+    ZB = np.empty((D, P, 3), dtype=object)
+    for idx in np.ndindex(D, P, 3):
+        X[idx] = ctx.var('x%s' % list(idx))
+        ZB[idx] = ctx.var('zbar%s' % list(idx))
+    wshape = {'z[0]': (), 'z[::-1]': (3,), 'z': (3,), 'z[1:]': (2,)}[which]
+    WB = np.empty((D, P) + wshape, dtype=object)
+    for idx in np.ndindex(*WB.shape):
+        WB[idx] = ctx.var('wbar%s' % list(idx))
+    cg = algopy.CGraph()
+    fx = algopy.Function(O.wrap(ctx, algopy, O.Arg('utpm', (3,)), X))
+    fz = fx * fx
+    fw = {'z[0]': lambda: fz[0], 'z[::-1]': lambda: fz[::-1], 'z': lambda: fz, 'z[1:]': lambda: fz[1:]}[which]()
+    cg.trace_off()
+    cg.independentFunctionList = [fx]
+    cg.dependentFunctionList = [fz, fw]
+    if not pullback_guard(ctx, algopy, cg, [O.wrap(ctx, algopy, O.Arg('utpm', (3,)), ZB), O.wrap(ctx, algopy, O.Arg('utpm', wshape), WB)]):
+        return
+    XB = plain(fx.xbar.data)
+    # total seed on z: zbar plus wbar scattered to the entries of z that w views
+    tot = ZB.copy()
+    for d in range(D):
+        for p in range(P):
+            if which == 'z[0]':
+                tot[d, p, 0] = tot[d, p, 0] + WB[d, p]
+            elif which == 'z[::-1]':
+                tot[d, p] = tot[d, p] + WB[d, p][::-1]
+            elif which == 'z':
+                tot[d, p] = tot[d, p] + WB[d, p]
+            else:
+                tot[d, p, 1:] = tot[d, p, 1:] + WB[d, p]
+    for p in range(P):
+        for i in range(3):
+            ref = lib.ps_mul([2 * X[d, p, i] for d in range(D)], [tot[d, p, i] for d in range(D)], D)
+            for d in range(D):
+                ctx.eq(XB[d, p, i], ref[d], 'xbar[%d,%d,%d] with dependents [z, %s]' % (d, p, i, which))
+
+
 def bounds(tier):
     return {'D': 2 if tier == 'quick' else 3, 'P': 2, 'random_programs': 12 if tier == 'quick' else 120,
             'random_length': '<=6' if tier == 'quick' else '<=10'}
@@ -425,6 +468,8 @@ def units(tier, seed):
         for where in (['post'] if tier == 'quick' else ['post', 'pre']):
             out.append(Unit('C03/%s-use:%s/D2,P%d' % (where, prog.name, Pp), 'symx.props.c03', 'h_prog',
                             {'pname': '%s-use:%s' % (where, prog.name), 'D': 2, 'P': Pp}, dict(opts)))
+    for which in ('z[0]', 'z[::-1]', 'z', 'z[1:]'):
+        out.append(Unit('C03/dependents sharing memory: [z, %s]/D2,P2' % which, 'symx.props.c03', 'h_aliased_dependents', {'which': which, 'D': 2, 'P': 2}, dict(opts)))
     n = 12 if tier == 'quick' else 160
     for i in range(n):
         length = 3 + (i % 4) if tier == 'quick' else 3 + (i % 8)
